@@ -11,7 +11,17 @@ LEAN_TARGETS = ['BareProofs.C06', 'BareProofs.C06Caret']
 DRIVER = 'drv_c06'
 DRIVER_ROOT = 'Drv.C06'
 GEN = ['Regex']
-THEOREMS = []          # filled in below when the proof module is present
+THEOREMS = [
+    # totality, error positions (all error sources, all eight statement kinds with an expression)
+    'C06.parse_total', 'C06.error_position', 'C06.first_error_wins', 'C06.shape_offsets', 'C06.classify_error_column',
+    # nothing left open, every logical line accounted for
+    'C06.no_open_block_accepted', 'C06.ok_is_stmts', 'C06.open_block_rejected', 'C06.accounts_for_every_line',
+    'C06.line_has_effect', 'C06.block_lines_move_the_stack', 'C06.LineEffect.stmts_monotone',
+    # line numbers move with the text / the start line number
+    'C06.start_line_offsets', 'C06.prepend_is_start_offset', 'C06.prepend_shifts_line_partial', 'C06.prepend_shifts_line_single',
+    # the formatted message (BareProofs/C06Caret.lean)
+    'C06.caret_under_same_char', 'C06.caret_in_range', 'C06.caret_row',
+]
 ASSUMPTIONS = [
     'CPython re engine: the line classifier and token scanners of the model re-implement each anchored pattern by hand '
     '(Gen/Regex pins the pattern sources; correspondence streams tie the behaviour)',
